@@ -240,7 +240,7 @@ func misuseCase(c *vk.Ctx, cfg srvkit.Config) {
 	grab(apiRead, "")
 	grab(apiReadChanges, "")
 	grab(apiReadChanges, "document")
-	grab(apiReadChanges, "folder")
+	grab(apiReadChanges, "documents")
 	grab(apiListStores, "")
 	grab(apiReadModels, "")
 	if len(gen) != 6 {
@@ -267,7 +267,7 @@ func misuseCase(c *vk.Ctx, cfg srvkit.Config) {
 		if g.api != apiReadChanges {
 			continue
 		}
-		for _, used := range []string{"", "document", "folder", "group"} {
+		for _, used := range []string{"", "document", "documents", "group"} {
 			if used != g.reqType {
 				tests = append(tests, misuse{apiReadChanges, used, g.token, fmt.Sprintf("genuine ReadChanges token issued with type=%q replayed with type=%q", g.reqType, used)})
 			}
